@@ -658,6 +658,23 @@ def plan_C19(ctx):
     scen = ctx.mc("MC_C19")
     ctx.mc("MC_C19", cfg="MC_C19_live", export=False, tag="MC_C19_live")
     run_py_scenarios(ctx, scen, "python-scenarios")
+    # sequences: scalars that compare/hash equal in Python (True == 1 == 1.0, 0.0 == -0.0 == False) passed one after the
+    # other in one interpreter: each call must still return exactly its own argument (no state between calls)
+    seq = os.path.join(ctx.wd, "py-sequences.ndjson")
+    TT, FF = {"t": "b", "v": True}, {"t": "b", "v": False}
+    def num(text, k, s_, m, e):
+        return {"t": "n", "k": k, "s": s_, "m": m, "e": e, "x": [ord(ch) for ch in text]}
+    ONEF, ONEI, ZF, NZF, ZI = num("1.0", "f", 0, [0, 0, 0, 128], -52), num("1", "i", 0, [1], 0), num("0.0", "f", 0, [], 0), num("-0.0", "f", 1, [], 0), num("0", "i", 0, [], 0)
+    IDENT = {"t": "o", "v": [[[118, 97, 114], {"t": "s", "v": []}]]}
+    order = [TT, ONEF, ONEI, TT, FF, ZF, NZF, ZI, FF, NZF, ZF, ONEI, ONEF, TT, ZI, NZF]
+    with open(seq, "w") as f:
+        for rep in range(2):
+            for dv in order:
+                f.write(json.dumps({"id": ["seq", rep], "entry": "apply", "value": {"valid": True, "v": IDENT}, "data": {"valid": True, "v": dv}, "ser": "omitted", "deser": "omitted",
+                                    "exp": {"kind": "return", "v": dv, "via": "std"}}) + "\n")
+                f.write(json.dumps({"id": ["seqv", rep], "entry": "apply", "value": {"valid": True, "v": dv}, "data": {"valid": True, "omitted": True}, "ser": "omitted", "deser": "omitted",
+                                    "exp": {"kind": "return", "v": dv, "via": "std"}}) + "\n")
+    run_py_scenarios(ctx, seq, "python-sequences")
     if ctx.deep:
         for mod, env, tag, every in (("MC_C11", None, "MC_C11", 4), ("MC_C10", None, "MC_C10", 30), ("MC_C16", None, "MC_C16", 40), ("MC_Machine", {"VERIF_FAMILY": "C05"}, "MC_Machine_C05", 8)):
             cs = ctx.mc(mod, env=env, tag=tag)
